@@ -58,6 +58,8 @@ def instances(tier, seed):
                 out.append(dict(label=f'grouping {"+".join(combo)} cond={cond}', kind='grouping', members=list(combo), cond=cond))
     out.append(dict(label='connector range', kind='connector'))
     out.append(dict(label='connector list', kind='connector_list'))
+    if tier == 'thorough':
+        out.append(dict(label='crosshair second opinion: connector', kind='crosshair', kernel='connector'))
     return out
 
 
@@ -602,3 +604,21 @@ def replay(rec):
         print(cfg, inp, nat)
         return nat['is_valid'] != nat['exists'] or nat['node_accepts'] != nat['node_expected']
     return True
+
+
+def _run_crosshair(inst, res):
+    """second opinion only (DESIGN.md 1.2): a CrossHair counterexample where the main engine proved the claim makes this
+    instance inconclusive; 'Not confirmed' is reported as not covered"""
+    from checks import crosshair_opinion
+    out = crosshair_opinion.run(inst['kernel'], per_condition_timeout=30)
+    res['crosshair'] = out
+    res['paths'] = len(out)
+    res['obligations'] += len(out)
+    res['discharged'] += len([o for o in out if o['verdict'] == 'confirmed'])
+    for o in out:
+        if o['verdict'] in ('counterexample', 'error'):
+            res['status'] = INCONCLUSIVE
+            res['notes'].append(f"CrossHair {o['function']}: {o['verdict']}: {o['detail']}")
+        elif o['verdict'] != 'confirmed':
+            res['notes'].append(f"CrossHair {o['function']}: not covered ({o['detail']})")
+    res['sample'] = dict(harness=inst['label'], crosshair=out)
